@@ -94,8 +94,11 @@ def gen_cases(out, explore):
         for j in range(ntr):
             t = shuffle_tree(rnd, rnd.choice(base)) if rnd.random() < 0.7 else rand_tree(rnd, rnd.choice([1, 3, 6]), 2)
             traces.append((j + 1, 1 + rnd.randrange(rnd.choice([1, 2, 3])), t))
-        cases.append(dict(traces=traces, bs=rnd.choice([1, 2, 3, 1000]), order=rnd.choice(["seq", "interleave", "reverse"]),
-                          buf=0, oseed=rnd.randrange(10**6)))
+        case = dict(traces=traces, bs=rnd.choice([1, 2, 3, 1000]), order=rnd.choice(["seq", "interleave", "reverse"]),
+                    buf=0, oseed=rnd.randrange(10**6))
+        if rnd.random() < 0.5:       # traces that do not overlap in time, so that the order of ingestion is also an order in time
+            case["times"] = {j + 1: 1000 + 100 * j for j in range(ntr)}
+        cases.append(case)
     for _ in range(n_rand // 3):
         ntr = rnd.choice([3, 5, 8])
         base = [rand_tree(rnd, rnd.choice([1, 2, 3, 5]), 2) for _ in range(2)]
@@ -119,7 +122,7 @@ def gen_cases(out, explore):
         times = {j + 1: 1000 + 50 * j for j in range(ntr)}
         traces.append((700, 1, (3, [])))
         times[700] = 1000 + 50 * ntr + 500
-        cases.append(dict(traces=traces, bs=rnd.choice([1, 1000]), order="seq", buf=0, times=times, durs={700: 0},
+        cases.append(dict(traces=traces, bs=rnd.choice([1, 1000]), order=rnd.choice(["seq", "reverse"]), buf=0, times=times, durs={700: 0},
                           oseed=rnd.randrange(10**6)))
     # a root page with more traces than SQLite's historical bound-parameter limit (999) under the default batch size:
     # every trace has >= 2 spans, so a trace whose descendants went missing would show up as a new shape
